@@ -46,7 +46,7 @@ theorem runOde_terminates_shape (e : Env) (maxTime : Rat) :
       (∃ rs, (runOde e maxTime).out = .rows rs ∧ rs.length = e.steps) ∨
       (∃ row, (runOde e maxTime).out = .failure row ∧ IsFailureRow e.start e.cdim row)) := by
   refine ⟨(runFrom_cycles e 0 maxTime).2 (by omega), fun he hm => ?_⟩
-  have h := (runFrom_spec e he 0 maxTime hm).2.2.2.2
+  have h := (runFrom_spec e he 0 maxTime hm).2.2.2.2.2
   unfold runOde
   cases hout : (runFrom e 0 maxTime).out with
   | rows rs => rw [hout] at h; exact Or.inl ⟨rs, rfl, h.count⟩
@@ -62,19 +62,23 @@ controller's output for that row's state and time. -/
 theorem runOde_rows_ok (e : Env) (he : EnvOk e) (maxTime : Rat) (hm : 0 < maxTime)
     (rs : List (List V)) (h : (runOde e maxTime).out = .rows rs) :
     GoodRows e.start e.cdim e.steps (specCtrl e) maxTime rs := by
-  obtain ⟨_, h2, _, _, h5⟩ := runFrom_spec e he 0 maxTime hm
+  obtain ⟨_, h2, _, _, _, h5⟩ := runFrom_spec e he 0 maxTime hm
   unfold runOde at h
   rw [h] at h5
   exact h5.mono h2
 
-/-- **The time limit only shrinks** (fix 63f4879).  The per-cycle time limits start with `max_time`
-and decrease strictly from cycle to cycle; the limit of the last cycle is positive. -/
+/-- **The time limit never grows** (fix 63f4879).  The per-cycle time limits start with `max_time`
+and never increase from cycle to cycle; the limit of the last cycle is positive and at most the
+original `max_time`.  If moreover the integrator never evaluates the right-hand side after its
+`t_bound` (`EvalsWithin`; scipy's last stage `t + (t_bound - t)` can round to one ulp above), every
+new limit is *strictly* below the previous one. -/
 theorem runOde_time_limit (e : Env) (he : EnvOk e) (maxTime : Rat) (hm : 0 < maxTime) :
     ((runOde e maxTime).trace.head?).map (·.maxTime) = some maxTime ∧
-    ((runOde e maxTime).trace.map (·.maxTime)).Pairwise (· > ·) ∧
+    ((runOde e maxTime).trace.map (·.maxTime)).Pairwise (· ≥ ·) ∧
+    (EvalsWithin e → ((runOde e maxTime).trace.map (·.maxTime)).Pairwise (· > ·)) ∧
     0 < (runOde e maxTime).finalMax ∧ (runOde e maxTime).finalMax ≤ maxTime := by
-  obtain ⟨h1, h2, h3, _, _⟩ := runFrom_spec e he 0 maxTime hm
-  exact ⟨runFrom_trace_head e 0 maxTime, h3, h1, h2⟩
+  obtain ⟨h1, h2, h3, _, h5, _⟩ := runFrom_spec e he 0 maxTime hm
+  exact ⟨runFrom_trace_head e 0 maxTime, h3, h5, h1, h2⟩
 
 /-- every row of a returned simulation was interpolated by an interpolator whose range contains the
 row's time (rows 1…): self-consistency of the segment search.  Stated for one cycle. -/
@@ -173,30 +177,91 @@ example : OdeWF exOde 5 3 2 := ⟨by decide, by decide, by decide, by decide⟩
 example : jFromOde exOde 3 2 (1 / 2) = .val ((8 + 64 + 72 + 50 + 18 + 144 + 324) / 7) := by decide +kernel
 example : docJ exOde 3 2 (1 / 2) = 680 / 7 := by decide +kernel
 
-/-- a two-cycle environment: cycle 1 (limit 4) hits an out-of-range evaluation at t = 3 after an
-in-range one at t = 2, the limit shrinks to 2; cycle 2 finishes with one interpolator `[0,2]`;
-3 rows are built on the grid 0,1,2; state = [t], control = [2·state]. -/
+/-- a two-cycle environment (all times scale with the limit `m`): in cycle 1 the integrator makes an
+in-range evaluation at `m/2` and an out-of-range one (control `+inf`) at `3m/4`; the limit shrinks
+from 4 to `3 - 1/4`; cycle 2 finishes with one interpolator `[0,m]`; 3 rows are built on the grid
+`0, m/2, m`; state = `[t]`, control = `[2·state]`. -/
 def exEnv : Env where
   start := [.fin 0]
   cdim := 1
   steps := 3
-  integ := fun c _ =>
+  integ := fun c m =>
     if c = 1 then ⟨[⟨0, -1, [.fin 0], [.fin 1]⟩],
-      [⟨[⟨2, 1, [.fin 0], [.fin 1]⟩], .running, (0, 2)⟩, ⟨[⟨3, 2, [.posInf], []⟩], .running, (2, 3)⟩]⟩
-    else ⟨[⟨0, -1, [.fin 0], [.fin 1]⟩], [⟨[⟨1, 0, [.fin 0], [.fin 1]⟩], .finished, (0, 2)⟩]⟩
+      [⟨[⟨m / 2, m / 2 - 1, [.fin 0], [.fin 1]⟩], .running, (0, m / 2)⟩,
+       ⟨[⟨3 * m / 4, 3 * m / 4 - 1, [.posInf], []⟩], .running, (m / 2, m)⟩]⟩
+    else ⟨[⟨0, -1, [.fin 0], [.fin 1]⟩], [⟨[⟨m / 4, m / 4 - 1, [.fin 0], [.fin 1]⟩], .finished, (0, m)⟩]⟩
   grid := fun m => [0, m / 2, m]
   dense := fun _ _ t => [.fin t]
-  ctrl := fun s _ => s.map (fun v => match v with | .fin q => .fin (2 * q) | x => x)
-  shrink1 := fun a b => match a, b with
-    | .fin x, .fin y => .fin ((x + y) / 2 - 1 / 2)
-    | _, _ => .negInf
+  ctrl := fun s _ => [match s.headD .nan with | .fin q => .fin (2 * q) | x => x]
+  shrink1 := fun _ b => match b with
+    | .fin y => .fin (y - 1 / 4)
+    | _ => .negInf
   shrink2 := fun _ _ => .negInf
+  nextUp := fun m => m
+
+
+/-- the runtime assumptions are satisfiable -/
+theorem exEnv_ok : EnvOk exEnv where
+  steps_pos := by decide
+  dense_len := by intros; rfl
+  ctrl_len := by intros; rfl
+  grid_len := by intros; rfl
+  grid_head := by intros; rfl
+  grid_inc := by
+    intro m hm
+    simp only [exEnv, List.pairwise_cons, List.mem_cons, List.not_mem_nil, or_false, forall_eq_or_imp,
+      forall_eq, false_imp_iff, implies_true, List.Pairwise.nil, and_true]
+    refine ⟨⟨by linarith, hm⟩, by linarith⟩
+  grid_le := by
+    intro m hm t ht
+    simp only [exEnv, List.mem_cons, List.not_mem_nil, or_false] at ht
+    rcases ht with rfl | rfl | rfl <;> linarith
+  integ_stops := by
+    intro c m
+    by_cases hc : c = 1
+    · simp only [exEnv, hc, if_true, collect, evals_isOk]
+      simp [FSt.init, Eval.ok, rowOk, V.isOk, LIM]
+      split <;> simp
+    · simp only [exEnv, hc, if_false, collect, evals_isOk]
+      simp [FSt.init, Eval.ok, rowOk, V.isOk, LIM]
+      split <;> simp
+  up_ge := by intro m; exact le_refl m
+  evals_le := by
+    intro c m hm ev hev
+    by_cases hc : c = 1
+    · simp only [exEnv, hc, if_true, allEvals, List.flatMap_cons, List.flatMap_nil, List.mem_append,
+        List.mem_cons, List.not_mem_nil, or_false] at hev
+      rcases hev with rfl | rfl | rfl <;> simp only [exEnv] <;> linarith
+    · simp only [exEnv, hc, if_false, allEvals, List.flatMap_cons, List.flatMap_nil, List.mem_append,
+        List.mem_cons, List.not_mem_nil, or_false] at hev
+      rcases hev with rfl | rfl <;> simp only [exEnv] <;> linarith
+  evals_prev := by
+    intro c m ev hev
+    by_cases hc : c = 1
+    · simp only [exEnv, hc, if_true, allEvals, List.flatMap_cons, List.flatMap_nil, List.mem_append,
+        List.mem_cons, List.not_mem_nil, or_false] at hev
+      rcases hev with rfl | rfl | rfl <;> simp
+    · simp only [exEnv, hc, if_false, allEvals, List.flatMap_cons, List.flatMap_nil, List.mem_append,
+        List.mem_cons, List.not_mem_nil, or_false] at hev
+      rcases hev with rfl | rfl <;> simp
+  shrink1_lt := by intro a q; simp [exEnv, V.lt]
+  shrink1_up := by intro a q m h; simp only [exEnv, V.le, decide_eq_true_eq] at h ⊢; linarith
+  shrink2_lt := by intros; rfl
+
 
 example : (runOde exEnv 4).cycles = 2 := by decide +kernel
 example : (runOde exEnv 4).out =
-    .rows [[.fin 0, .fin 0, .fin 0], [.fin 1, .fin 2, .fin 1], [.fin 2, .fin 4, .fin 2]] := by
-  decide +kernel
+    .rows [[.fin 0, .fin 0, .fin 0], [.fin (11 / 8), .fin (11 / 4), .fin (11 / 8)],
+           [.fin (11 / 4), .fin (11 / 2), .fin (11 / 4)]] := by decide +kernel
+example : ((runOde exEnv 4).trace.map (·.maxTime)) = [4, 11 / 4] := by decide +kernel
+/-- the theorem applied to the example -/
 example : GoodRows exEnv.start 1 3 (specCtrl exEnv) 4
-    [[.fin 0, .fin 0, .fin 0], [.fin 1, .fin 2, .fin 1], [.fin 2, .fin 4, .fin 2]] := by decide +kernel
+    [[.fin 0, .fin 0, .fin 0], [.fin (11 / 8), .fin (11 / 4), .fin (11 / 8)],
+     [.fin (11 / 4), .fin (11 / 2), .fin (11 / 4)]] :=
+  runOde_rows_ok exEnv exEnv_ok 4 (by decide) _ (by decide +kernel)
+/-- a run that ends in the failure row: the controller is out of range at the start state -/
+example : (runOde { exEnv with ctrl := fun _ _ => [.posInf],
+                               integ := fun _ _ => ⟨[⟨0, -1, [.posInf], []⟩], [⟨[], .running, (0, 0)⟩]⟩ } 4).out
+    = .failure [.fin 0, .fin D100, .fin 0] := by decide +kernel
 
 end Ode
